@@ -202,6 +202,9 @@ func c01Trails(thorough bool) []c01Trail {
 		{Has: true, CtcpVerb: "ACTION", CtcpText: "waves hi"},
 		{Has: true, CtcpVerb: "VERSION", CtcpText: "x"},
 		{Has: true, CtcpVerb: "PING", CtcpText: "1 2"},
+		// text that begins with a blank (two blanks after the verb), inner double blank, blank before the closing \x01
+		{Has: true, CtcpVerb: "ACTION", CtcpText: " o/ waves"},
+		{Has: true, CtcpVerb: "PING", CtcpText: "1  2 "},
 	}
 	if thorough {
 		t = append(t,
